@@ -213,10 +213,13 @@ theorem process_startup_queries_eq {c : Cfg} {s : QueryScheduler} {m : S2} (h : 
 
 /-! ### `_schedule_ptr_query` on a freshly constructed object = the model's `schedule2` -/
 
-/-- ids are allocated in order: every stored id and every id in the heap is below the next one -/
+/-- ids are allocated in order: every stored id and every id in the heap is below the next one; the heap holds ids of stored
+objects; the per-alias dict is a dict -/
 structure StoreOk (s : QueryScheduler) : Prop where
   fresh : PyStore.Fresh s.store
   heapIds : ∀ i ∈ s.query_heap, i < s.store.next
+  heapStored : ∀ i ∈ s.query_heap, (PyStore.get? s.store i).isSome
+  dictWF : PyDict.WF strEq s.next_scheduled_for_alias
 
 theorem dget_dset (k : String) (i : Nat) (d : Sched2.Dict) (a : String) :
     dget a (dset k i d) = if k = a then some i else dget a d := by
@@ -279,8 +282,6 @@ theorem schedule_new_eq {c : Cfg} {s : QueryScheduler} {m : S2} (h : Rel c s m) 
     · show m.nextId + 1 = (PyStore.alloc s.store o).2.next
       rw [h.nextId]; rfl
   have hok1 : StoreOk s1 := by
-    refine ⟨PyStore.fresh_alloc hok.fresh o, ?_⟩
-    intro i hi
     have hsub : ∀ (l : List Nat) (lt : Nat → Nat → Bool) (x : Nat), ∀ i ∈ PyHeap.push lt l x, i ∈ l ∨ i = x := by
       intro l lt x
       induction l with
@@ -294,10 +295,17 @@ theorem schedule_new_eq {c : Cfg} {s : QueryScheduler} {m : S2} (h : Rel c s m) 
           rcases hi with h | h
           · simp [h]
           · rcases ih i h with h | h <;> simp [h]
-    show i < s.store.next + 1
-    rcases hsub _ _ _ i hi with h1 | h1
-    · exact Nat.lt_succ_of_lt (hok.heapIds i h1)
-    · rw [h1]; exact Nat.lt_succ_self _
+    refine ⟨PyStore.fresh_alloc hok.fresh o, ?_, ?_, PyDict.WF_set hok.dictWF _ _⟩
+    · intro i hi
+      show i < s.store.next + 1
+      rcases hsub _ _ _ i hi with h1 | h1
+      · exact Nat.lt_succ_of_lt (hok.heapIds i h1)
+      · rw [h1]; exact Nat.lt_succ_self _
+    · intro i hi
+      show (PyStore.get? (PyStore.alloc s.store o).2 i).isSome
+      rcases hsub _ _ _ i hi with h1 | h1
+      · rw [PyStore.get?_alloc_old o (hok.heapIds i h1)]; exact hok.heapStored i h1
+      · rw [h1, hnew]; rfl
   have hl1 : s1.loop.isSome := hl
   obtain ⟨s', eff, he, hr, hloop, hst, hhp, hdc, harm, hsend⟩ := rearm_if_earlier_eq hrel1 o.when_millis now hl1
   refine ⟨s', eff, ?_, ?_, ?_, hloop, ?_, hsend⟩
@@ -309,7 +317,258 @@ theorem schedule_new_eq {c : Cfg} {s : QueryScheduler} {m : S2} (h : Rel c s m) 
     rw [he']
     simp
   · exact hr
-  · exact ⟨by rw [hst]; exact hok1.fresh, by rw [hhp, hst]; exact hok1.heapIds⟩
+  · exact ⟨by rw [hst]; exact hok1.fresh, by rw [hhp, hst]; exact hok1.heapIds, by rw [hhp, hst]; exact hok1.heapStored,
+      by rw [hdc]; exact hok1.dictWF⟩
   · exact harm
+
+/-! ### `cancel_ptr_refresh` = the model's `cancel2` -/
+
+theorem dget_ddel (k : String) (d : Sched2.Dict) (a : String) :
+    dget a (ddel k d) = if k = a then none else dget a d := by
+  unfold dget ddel
+  induction d with
+  | nil => simp
+  | cons e r ih =>
+    rw [List.filter_cons]
+    by_cases he : e.1 = k
+    · have he' : (e.1 == k) = true := by simpa using he
+      simp only [he', Bool.not_true, Bool.false_eq_true, if_false, List.find?_cons]
+      rw [ih]
+      by_cases hk : k = a
+      · simp [hk]
+      · have : (e.1 == a) = false := by rw [he]; simpa using hk
+        simp [hk, this]
+    · have he' : (e.1 == k) = false := by simpa using he
+      simp only [he', Bool.not_false, if_true, List.find?_cons]
+      cases hea : e.1 == a with
+      | true =>
+        have : ¬ k = a := by
+          intro hka; apply he; rw [hka]; simpa using hea
+        simp [this]
+      | false => exact ih
+
+/-- an attribute write through the store is the same write on the model's heap of objects -/
+theorem map_objOf_modify (st : PyStore ScheduledPTRQuery) (hp : List Nat) (i : Nat) (f : ScheduledPTRQuery → ScheduledPTRQuery) (g : Q → Q)
+    (hfg : ∀ o, toQ (f o) = g (toQ o)) (hs : ∀ j ∈ hp, (PyStore.get? st j).isSome) :
+    hp.map (objOf (PyStore.modify st i f)) = (hp.map (objOf st)).map (fun o => if o.id == i then { o with q := g o.q } else o) := by
+  rw [List.map_map]
+  apply List.map_congr_left
+  intro j hj
+  obtain ⟨o, ho⟩ := Option.isSome_iff_exists.1 (hs j hj)
+  simp only [Function.comp, objOf, PyStore.getD, PyStore.get?_modify, ho]
+  by_cases hji : j = i
+  · simp [hji, hfg]
+  · simp [hji]
+
+theorem stored_modify {st : PyStore ScheduledPTRQuery} {hp : List Nat} (hs : ∀ j ∈ hp, (PyStore.get? st j).isSome) (i : Nat)
+    (f : ScheduledPTRQuery → ScheduledPTRQuery) : ∀ j ∈ hp, (PyStore.get? (PyStore.modify st i f) j).isSome := by
+  intro j hj
+  rw [PyStore.get?_modify]
+  have := hs j hj
+  split
+  · rw [Option.isSome_map]; exact this
+  · exact this
+
+/-- `obj.cancelled = True` through the store is the model's `setCancelled` on the heap of objects -/
+theorem map_objOf_cancel (st : PyStore ScheduledPTRQuery) (hp : List Nat) (i : Nat) (hs : ∀ j ∈ hp, (PyStore.get? st j).isSome) :
+    hp.map (objOf (PyStore.modify st i (fun o => { o with cancelled := true }))) = setCancelled i (hp.map (objOf st)) :=
+  map_objOf_modify st hp i _ (fun q => { q with cancelled := true }) (fun _ => rfl) hs
+
+theorem dict_erase_ddel {c : Cfg} {s : QueryScheduler} {m : S2} (h : Rel c s m) (hok : StoreOk s) (a a' : String) :
+    PyDict.get? strEq (PyDict.erase strEq s.next_scheduled_for_alias a) a' = dget a' (ddel a m.dict) := by
+  rw [PyDict.get?_erase strEq_keyEq hok.dictWF, dget_ddel, h.dict a']
+  simp only [strEq, decide_eq_true_eq]
+
+/-- the two statements `scheduled.cancelled = True; del dict[alias]` (in either order) on both sides -/
+theorem rel_cancel {c : Cfg} {s : QueryScheduler} {m : S2} (h : Rel c s m) (hok : StoreOk s) (a : String) (i : Nat) :
+    Rel c { s with store := PyStore.modify s.store i (fun o => { o with cancelled := true }),
+                   next_scheduled_for_alias := PyDict.erase strEq s.next_scheduled_for_alias a }
+          { m with dict := ddel a m.dict, heap := setCancelled i m.heap }
+    ∧ StoreOk { s with store := PyStore.modify s.store i (fun o => { o with cancelled := true }),
+                       next_scheduled_for_alias := PyDict.erase strEq s.next_scheduled_for_alias a } := by
+  refine ⟨⟨h.sent, ?_, dict_erase_ddel h hok a, h.nextId, h.started, h.nextRun, h.earliest, h.minDelay, h.types, h.interval, h.resolution⟩,
+    ⟨PyStore.fresh_modify hok.fresh _ _, hok.heapIds, stored_modify hok.heapStored _ _, PyDict.WF_erase hok.dictWF _⟩⟩
+  show setCancelled i m.heap = s.query_heap.map (objOf (PyStore.modify s.store i _))
+  rw [map_objOf_cancel s.store s.query_heap i hok.heapStored, h.heap]
+
+/-- **`cancel_ptr_refresh`** is the model's `cancel2` (`a` the pointer's lower-cased alias): the dict entry goes, the object it named
+is marked cancelled and stays in the heap -/
+theorem cancel_ptr_refresh_eq {c : Cfg} {s : QueryScheduler} {m : S2} (lower : String → String) (h : Rel c s m) (hok : StoreOk s)
+    (p : Rec) (a : String) (ha : Rec.attrAliasKey lower p = .ok a) :
+    ∃ s', QueryScheduler.cancel_ptr_refresh lower s p = .ok s' ∧ Rel c s' (cancel2 m a) ∧ StoreOk s' ∧ s'.loop = s.loop := by
+  unfold QueryScheduler.cancel_ptr_refresh cancel2
+  have hd : ∀ a', PyDict.get? strEq (PyDict.erase strEq s.next_scheduled_for_alias a) a' = dget a' (ddel a m.dict) := by
+    intro a'
+    rw [PyDict.get?_erase strEq_keyEq hok.dictWF, dget_ddel, h.dict a']
+    simp only [strEq, decide_eq_true_eq]
+  simp only [ha, bind, Except.bind, pure, Except.pure, PyDict.popD]
+  rw [← h.dict a]
+  cases hg : PyDict.get? strEq s.next_scheduled_for_alias a with
+  | none =>
+    refine ⟨_, rfl, ?_, ?_, rfl⟩
+    · refine ⟨h.sent, h.heap, ?_, h.nextId, h.started, h.nextRun, h.earliest, h.minDelay, h.types, h.interval, h.resolution⟩
+      intro a'
+      rw [hd a', dget_ddel]
+      by_cases hk : a = a'
+      · rw [if_pos hk, ← h.dict a', ← hk, hg]
+      · rw [if_neg hk]
+    · exact ⟨hok.fresh, hok.heapIds, hok.heapStored, PyDict.WF_erase hok.dictWF _⟩
+  | some i =>
+    refine ⟨_, rfl, ?_, ?_, rfl⟩
+    · refine ⟨h.sent, ?_, hd, h.nextId, h.started, h.nextRun, h.earliest, h.minDelay, h.types, h.interval, h.resolution⟩
+      show setCancelled i m.heap = s.query_heap.map (objOf (PyStore.modify s.store i _))
+      rw [map_objOf_cancel s.store s.query_heap i hok.heapStored, h.heap]
+    · refine ⟨PyStore.fresh_modify hok.fresh _ _, hok.heapIds, ?_, PyDict.WF_erase hok.dictWF _⟩
+      intro j hj
+      show (PyStore.get? (PyStore.modify s.store i _) j).isSome
+      rw [PyStore.get?_modify]
+      have := hok.heapStored j hj
+      split
+      · rw [Option.isSome_map]; exact this
+      · exact this
+
+/-! ### `reschedule_ptr_first_refresh` = the model's `reschedule2` -/
+
+theorem getObj_map (st : PyStore ScheduledPTRQuery) (hp : List Nat) (i : Nat) (hi : i ∈ hp) :
+    getObj i (hp.map (objOf st)) = some (objOf st i) := by
+  unfold getObj
+  induction hp with
+  | nil => cases hi
+  | cons j r ih =>
+    simp only [List.map_cons, List.find?_cons]
+    by_cases hji : j = i
+    · simp [objOf, hji]
+    · have : ((objOf st j).id == i) = false := by simpa [objOf] using hji
+      rw [this]
+      cases hi with
+      | head => exact absurd rfl hji
+      | tail _ h => exact ih h
+
+/-- `current.ttl = …; current.expire_time_millis = …` through the store is the model's `setLife` -/
+theorem map_objOf_life (st : PyStore ScheduledPTRQuery) (hp : List Nat) (i : Nat) (ttl : Nat) (exp : Int)
+    (hs : ∀ j ∈ hp, (PyStore.get? st j).isSome) :
+    hp.map (objOf (PyStore.modify (PyStore.modify st i (fun o => { o with ttl := ttl })) i (fun o => { o with expire_time_millis := exp })))
+      = setLife i ttl exp (hp.map (objOf st)) := by
+  rw [map_objOf_modify _ hp i _ (fun q => { q with expire := exp }) (fun _ => rfl) (stored_modify hs _ _),
+      map_objOf_modify st hp i _ (fun q => { q with ttl := ttl }) (fun _ => rfl) hs]
+  unfold setLife
+  rw [List.map_map]
+  apply List.map_congr_left
+  intro o _
+  simp only [Function.comp]
+  by_cases h : o.id == i <;> simp [h]
+
+/-- **`_schedule_ptr_refresh`** (constructor call + `_schedule_ptr_query`) is the model's `schedule2` of the constructed query -/
+theorem schedule_ptr_refresh_eq {c : Cfg} {s : QueryScheduler} {m : S2} (lower : String → String) (h : Rel c s m)
+    (hok : StoreOk s) (hl : s.loop.isSome) (p : Rec) (a : String) (ha : Rec.attrAliasKey lower p = .ok a) (exp refresh now : Int) :
+    ∃ s' eff, QueryScheduler.schedule_ptr_refresh lower s p exp refresh = .ok (s', eff)
+      ∧ Rel c s' (schedule2 m (toQ (ScheduledPTRQuery.init a p.name p.ttl exp refresh))) ∧ StoreOk s' ∧ s'.loop = s.loop
+      ∧ armedAfter now m.armed eff = (schedule2 m (toQ (ScheduledPTRQuery.init a p.name p.ttl exp refresh))).armed ∧ sendsOf c eff = [] := by
+  obtain ⟨s', eff, he, hr, hk, hloop, harm, hsend⟩ := schedule_new_eq h hok hl (ScheduledPTRQuery.init a p.name p.ttl exp refresh) now
+  refine ⟨s', eff, ?_, hr, hk, hloop, harm, hsend⟩
+  simp only [QueryScheduler.schedule_ptr_refresh, ha, bind, Except.bind, pure, Except.pure]
+  rw [he]
+  rfl
+
+/-- **`reschedule_ptr_first_refresh`** is the model's `reschedule2` of the pointer's `(alias, name, ttl, created)`.  `hdh`: the object
+the dict names for this alias is in the heap (in Python the dict holds the object itself; `Proofs/Sched2` proves it an invariant of
+the model).  The model's `dangling` error does not arise. -/
+theorem reschedule_ptr_first_refresh_eq {c : Cfg} {s : QueryScheduler} {m : S2} (lower : String → String) (h : Rel c s m)
+    (hok : StoreOk s) (hl : s.loop.isSome) (p : Rec) (a : String) (ha : Rec.attrAliasKey lower p = .ok a) (now : Int)
+    (hdh : ∀ i, PyDict.get? strEq s.next_scheduled_for_alias a = some i → i ∈ s.query_heap) :
+    ∃ s' eff m', QueryScheduler.reschedule_ptr_first_refresh lower s p = .ok (s', eff)
+      ∧ reschedule2 c m a p.name p.ttl p.created = .ok m'
+      ∧ Rel c s' m' ∧ StoreOk s' ∧ s'.loop = s.loop ∧ armedAfter now m.armed eff = m'.armed ∧ sendsOf c eff = [] := by
+  have hfq : toQ (ScheduledPTRQuery.init a p.name p.ttl (Rec.expirationTime p 100) (Rec.expirationTime p 75))
+      = firstQuery a p.name p.ttl p.created := rfl
+  unfold QueryScheduler.reschedule_ptr_first_refresh reschedule2
+  simp only [ha, bind, Except.bind, pure, Except.pure]
+  rw [← h.dict a]
+  cases hg : PyDict.get? strEq s.next_scheduled_for_alias a with
+  | none =>
+    obtain ⟨s', eff, he, hr, hk, hloop, harm, hsend⟩ :=
+      schedule_ptr_refresh_eq lower h hok hl p a ha (Rec.expirationTime p 100) (Rec.expirationTime p 75) now
+    rw [hfq] at hr harm
+    refine ⟨s', eff, _, ?_, rfl, hr, hk, hloop, harm, hsend⟩
+    simp only [he]
+    rfl
+  | some i =>
+    have hi := hdh i hg
+    obtain ⟨o, ho⟩ := Option.isSome_iff_exists.1 (hok.heapStored i hi)
+    have hget : PyStore.get s.store i = .ok o := by simp [PyStore.get, ho]
+    have hobj : getObj i m.heap = some ⟨i, toQ o⟩ := by
+      rw [h.heap, getObj_map s.store s.query_heap i hi]
+      simp [objOf, PyStore.getD, ho]
+    simp only [hget, hobj]
+    have hkeep : Gen.Browser.reschedule_keep (↑c.minDelay) (firstQuery a p.name p.ttl p.created).when (toQ o).when
+        = (decide (-s.min_time_between_queries_millis ≤ p.expirationTime 75 - o.when_millis)
+            && decide (p.expirationTime 75 - o.when_millis ≤ s.min_time_between_queries_millis)) := by
+      simp only [Gen.Browser.reschedule_keep, h.minDelay]
+      rfl
+    rw [hkeep]
+    have hdel : PyDict.delItem strEq s.next_scheduled_for_alias a = .ok (PyDict.erase strEq s.next_scheduled_for_alias a) := by
+      simp [PyDict.delItem, PyDict.contains, hg]
+    generalize (decide (-s.min_time_between_queries_millis ≤ p.expirationTime 75 - o.when_millis)
+            && decide (p.expirationTime 75 - o.when_millis ≤ s.min_time_between_queries_millis)) = keep
+    cases keep with
+    | true =>
+      refine ⟨_, _, _, rfl, rfl, ?_, ?_, rfl, rfl, rfl⟩
+      · refine ⟨h.sent, ?_, h.dict, h.nextId, h.started, h.nextRun, h.earliest, h.minDelay, h.types, h.interval, h.resolution⟩
+        have hlife := map_objOf_life s.store s.query_heap i p.ttl (p.expirationTime 100) hok.heapStored
+        show setLife i p.ttl (p.expirationTime 100) m.heap = _
+        rw [h.heap]
+        exact hlife.symm
+      · exact ⟨PyStore.fresh_modify (PyStore.fresh_modify hok.fresh _ _) _ _, hok.heapIds,
+          stored_modify (stored_modify hok.heapStored _ _) _ _, hok.dictWF⟩
+    | false =>
+      obtain ⟨hr1, hok1⟩ := rel_cancel h hok a i
+      obtain ⟨s', eff, he, hr, hk, hloop, harm, hsend⟩ :=
+        schedule_ptr_refresh_eq lower hr1 hok1 hl p a ha (Rec.expirationTime p 100) (Rec.expirationTime p 75) now
+      rw [hfq] at hr harm
+      refine ⟨s', eff, _, ?_, rfl, hr, hk, hloop, harm, hsend⟩
+      simp only [hdel, Bool.false_eq_true, if_false]
+      rw [he]
+      rfl
+
+/-! ### `schedule_rescue_query` = the model's `rescueOf` followed by `schedule2` -/
+
+/-- one rescue step of the model -/
+def rescueStep (now : Int) (m : S2) (q : Q) : S2 :=
+  match rescueOf now q with
+  | some q' => schedule2 m q'
+  | none => m
+
+/-- **`schedule_rescue_query`** (called with `RESCUE_RECORD_RETRY_TTL_PERCENTAGE` = 100 ‰) of a live stored object is the model's
+`rescueOf` + `schedule2`: nothing when the retry would fall at or after the expiry, else a new object `ttl/10` ahead -/
+theorem schedule_rescue_query_eq {c : Cfg} {s : QueryScheduler} {m : S2} (h : Rel c s m) (hok : StoreOk s) (hl : s.loop.isSome)
+    (i : Nat) (o : ScheduledPTRQuery) (ho : PyStore.get? s.store i = some o) (hc : o.cancelled = false) (now clk : Int) :
+    ∃ s' eff, s.schedule_rescue_query i now 100 = .ok (s', eff)
+      ∧ Rel c s' (rescueStep now m (toQ o)) ∧ StoreOk s' ∧ s'.loop = s.loop
+      ∧ armedAfter clk m.armed eff = (rescueStep now m (toQ o)).armed ∧ sendsOf c eff = [] := by
+  have hget : PyStore.get s.store i = .ok o := by simp [PyStore.get, ho]
+  unfold QueryScheduler.schedule_rescue_query rescueStep rescueOf
+  simp only [hget, bind, Except.bind, pure, Except.pure, Gen.Browser.rescue_next, Gen.Browser.rescue_ttl_millis, Gen.Browser.rescue_stop,
+    Gen.rescueRecordRetryTtlPercentagePerMille, toQ]
+  have hnext : now + ((o.ttl : Int) * 1000 * ((100 : Nat) : Int)) / 1000 = now + (o.ttl : Int) * 100 := by omega
+  have hdiv : Int.fdiv (now * 1000 + (o.ttl : Int) * 1000 * 100 * 1) 1000 = now + (o.ttl : Int) * 100 := by
+    rw [Int.fdiv_eq_ediv_of_nonneg _ (by decide)]
+    omega
+  simp only [hnext, hdiv]
+  by_cases hstop : now + (o.ttl : Int) * 100 ≥ o.expire_time_millis
+  · have h1 : now * 1000 + (o.ttl : Int) * 1000 * 100 * 1 ≥ o.expire_time_millis * 1000 := by omega
+    simp only [h1, hstop, decide_true, if_true]
+    exact ⟨s, [], rfl, h, hok, rfl, rfl, rfl⟩
+  · have h1 : ¬ now * 1000 + (o.ttl : Int) * 1000 * 100 * 1 ≥ o.expire_time_millis * 1000 := by omega
+    simp only [h1, hstop, decide_false, Bool.false_eq_true, if_false]
+    obtain ⟨s', eff, he, hr, hk, hloop, harm, hsend⟩ :=
+      schedule_new_eq h hok hl (ScheduledPTRQuery.init o.alias o.name o.ttl o.expire_time_millis (now + (o.ttl : Int) * 100)) clk
+    have hq : toQ (ScheduledPTRQuery.init o.alias o.name o.ttl o.expire_time_millis (now + (o.ttl : Int) * 100))
+        = { alias := o.alias, name := o.name, ttl := o.ttl, cancelled := o.cancelled, expire := o.expire_time_millis,
+            when := now + (o.ttl : Int) * 100 } := by
+      simp only [toQ, ScheduledPTRQuery.init, hc]
+    rw [hq] at hr harm
+    refine ⟨s', eff, ?_, hr, hk, hloop, harm, hsend⟩
+    rw [he]
+    rfl
 
 end Zc.GenFacts.FnSched
